@@ -50,6 +50,8 @@ type Prog struct {
 	UioVer   string
 
 	funcIndex map[string]*ssa.Function
+	// Inline: what the normalisation pre-pass did (inlinenew.go); nil when it is off or found nothing to do
+	Inline *inlineReport
 }
 
 func childEnv(cfg BuildConfig) []string {
@@ -81,12 +83,34 @@ func gitState(dir string) (string, bool) {
 	return strings.TrimSpace(string(out)), len(strings.TrimSpace(string(st))) > 0
 }
 
+// normaliseVerif: where spec/functions.json lives; "" switches the inlining pre-pass off
+var normaliseVerif = "/verif"
+
 func Load(dir string, cfg BuildConfig, needCG bool) (*Prog, error) {
+	var overlay map[string][]byte
+	var irep *inlineReport
+	if normaliseVerif != "" {
+		func() {
+			// the pre-pass is an optimisation of precision, not a verdict: if the vendored inliner should panic on some
+			// construct, the tree is analysed as it is (calls of new helpers stay calls)
+			defer func() {
+				if r := recover(); r != nil {
+					overlay, irep = nil, &inlineReport{Kept: []string{fmt.Sprintf("inlining pre-pass abandoned: %v", r)}, Dead: map[string]bool{}}
+				}
+			}()
+			var err error
+			overlay, irep, err = inlineNewHelpers(dir, cfg, normaliseVerif)
+			if err != nil {
+				overlay, irep = nil, &inlineReport{Kept: []string{"inlining pre-pass abandoned: " + err.Error()}, Dead: map[string]bool{}}
+			}
+		}()
+	}
 	pcfg := &packages.Config{
-		Mode:  packages.LoadAllSyntax | packages.NeedModule,
-		Dir:   dir,
-		Tests: false,
-		Env:   childEnv(cfg),
+		Mode:    packages.LoadAllSyntax | packages.NeedModule,
+		Dir:     dir,
+		Tests:   false,
+		Env:     childEnv(cfg),
+		Overlay: overlay,
 	}
 	pkgs, err := packages.Load(pcfg, "./...")
 	if err != nil {
@@ -95,7 +119,7 @@ func Load(dir string, cfg BuildConfig, needCG bool) (*Prog, error) {
 	if len(pkgs) == 0 {
 		return nil, fmt.Errorf("load: zero packages")
 	}
-	p := &Prog{Dir: dir, Config: cfg, SSAPkg: map[string]*ssa.Package{}, funcIndex: map[string]*ssa.Function{}}
+	p := &Prog{Dir: dir, Config: cfg, SSAPkg: map[string]*ssa.Package{}, funcIndex: map[string]*ssa.Function{}, Inline: irep}
 	var errs []string
 	packages.Visit(pkgs, nil, func(pk *packages.Package) {
 		p.Pkgs = append(p.Pkgs, pk)
@@ -272,6 +296,15 @@ func (p *Prog) ModuleFuncs() []*ssa.Function {
 	var out []*ssa.Function
 	for f := range p.AllFuncs {
 		if f.Blocks != nil && inModule(f) && f.Synthetic == "" {
+			if p.Inline != nil && len(p.Inline.Dead) > 0 {
+				root := f
+				for root.Parent() != nil {
+					root = root.Parent()
+				}
+				if root.Signature.Recv() == nil && p.Inline.Dead[funcKey(root)] {
+					continue // a new helper that was inlined everywhere: not part of the analysed program
+				}
+			}
 			out = append(out, f)
 		}
 	}
